@@ -586,6 +586,17 @@ fn run_thread(sh: SArc<Sh>, t: usize) {
                 armed.set(true);
                 sh.atoms[oi()].get().with_mut(|_| panic!("verif-panic"))
             }
+            // k = "unwind": the closure writes and then panics, the program catches the panic itself: the write has happened
+            // (std: get_mut + assignment + panic), later operations see it
+            "wmut" if ins.k == "unwind" => {
+                let r = std::panic::catch_unwind(std::panic::AssertUnwindSafe(|| {
+                    sh.atoms[oi()].get().with_mut(|p| {
+                        *p = ins.v as usize;
+                        std::panic::resume_unwind(Box::new("verif-caught"));
+                    })
+                }));
+                assert!(r.is_err());
+            }
             "wmut" => sh.atoms[oi()].get().with_mut(|p| *p = ins.v as usize),
             // k = "always": the guard touches its atomic in Drop on every path, an unwinding one included
             "aguard" if ins.k == "always" => aguards.push(AGuard { sh: sh.clone(), i: oi(), armed: std::rc::Rc::new(std::cell::Cell::new(true)) }),
@@ -876,6 +887,8 @@ fn run_thread(sh: SArc<Sh>, t: usize) {
             "tdrop" => drop(sh.trks.get().remove(&ins.o)),
             "tforget" => std::mem::forget(sh.trks.get().remove(&ins.o)),
             "tlwith" => res = Some(tl_bump(&ins.o) as i64),
+            // the place of the value's destructor in the program text (it runs when the thread ends, right after its last instruction)
+            "tlexit" => {}
             "tlnest" => res = Some(tl_nest(&ins.o, &ins.o2) as i64),
             "lzget" => {
                 LZ_MODE.with(|m| *m.borrow_mut() = if ins.k == "rmw" { "rmw".into() } else { "yield".into() });
